@@ -1,0 +1,335 @@
+//! Verification hook (compiled only with `--cfg folo_verif`): builds the Linux platform, and a
+//! `SystemHardware` on top of it, over a caller-supplied in-memory filesystem and a
+//! caller-supplied thread affinity "kernel", and exposes the affinity mask type.
+//!
+//! Nothing in here is part of the package API. With the guard off none of it is compiled.
+
+use std::fmt::Debug;
+use std::io;
+use std::num::NonZero;
+use std::sync::Arc;
+
+use libc::c_ulong;
+
+use super::{Bindings, BindingsFacade, BuildTargetPlatform, CpuMask, Filesystem, FilesystemFacade};
+use crate::pal::{AbstractProcessor, Platform, PlatformFacade};
+use crate::{EfficiencyClass, MemoryRegionId, ProcessorId, SystemHardware};
+
+/// The virtual filesystem the Linux platform reads, answered by the verification harness.
+///
+/// One method per method of the crate-private `Filesystem` trait, with the same meaning.
+pub trait VerifFilesystem: Debug + Send + Sync + 'static {
+    /// `/proc/cpuinfo`.
+    fn get_cpuinfo_contents(&self) -> String;
+    /// `/sys/devices/system/cpu/possible`.
+    fn get_possible_cpus_contents(&self) -> Option<String>;
+    /// `/sys/devices/system/cpu/online`.
+    fn get_online_cpus_contents(&self) -> Option<String>;
+    /// `/sys/devices/system/node/possible`.
+    fn get_numa_node_possible_contents(&self) -> Option<String>;
+    /// `/sys/devices/system/node/node{}/cpulist`.
+    fn get_numa_node_cpulist_contents(&self, node_index: u32) -> Option<String>;
+    /// `/sys/devices/system/cpu/cpu{}/online`.
+    fn get_cpu_online_contents(&self, cpu_index: u32) -> Option<String>;
+    /// `/proc/self/status`.
+    fn get_proc_self_status_contents(&self) -> String;
+    /// `/proc/self/cgroup`.
+    fn get_proc_self_cgroup(&self) -> Option<String>;
+    /// `/sys/fs/cgroup/cpu/{name}/cpu.cfs_quota_us`.
+    fn get_v1_cgroup_cpu_quota(&self, cgroup_name: &str) -> Option<String>;
+    /// `/sys/fs/cgroup/cpu/{name}/cpu.cfs_period_us`.
+    fn get_v1_cgroup_cpu_period(&self, cgroup_name: &str) -> Option<String>;
+    /// `/sys/fs/cgroup/{name}/cpu.max`.
+    fn get_v2_cgroup_cpu_quota_and_period(&self, cgroup_name: &str) -> Option<String>;
+}
+
+/// The three system calls the Linux platform makes about the current thread, answered by the
+/// verification harness in terms of raw mask bytes - exactly what the operating system sees.
+pub trait VerifAffinityKernel: Debug + Send + Sync + 'static {
+    /// `sched_setaffinity(0, mask.len(), mask)`. `Err` carries the `errno` value.
+    fn sched_setaffinity_current(&self, mask: &[u8]) -> Result<(), i32>;
+
+    /// `sched_getaffinity(0, buffer.len(), buffer)`: fills the (zeroed) buffer. `Err` carries the
+    /// `errno` value, `EINVAL` when the buffer is too narrow.
+    fn sched_getaffinity_current(&self, buffer: &mut [u8]) -> Result<(), i32>;
+
+    /// `sched_getcpu()`.
+    fn sched_getcpu(&self) -> i32;
+}
+
+/// Adapter: the crate-private `Filesystem` trait over the harness filesystem.
+#[derive(Clone, Debug)]
+pub(crate) struct VerifFilesystemAdapter(pub(crate) Arc<dyn VerifFilesystem>);
+
+impl Filesystem for VerifFilesystemAdapter {
+    fn get_cpuinfo_contents(&self) -> String {
+        self.0.get_cpuinfo_contents()
+    }
+
+    fn get_possible_cpus_contents(&self) -> Option<String> {
+        self.0.get_possible_cpus_contents()
+    }
+
+    fn get_online_cpus_contents(&self) -> Option<String> {
+        self.0.get_online_cpus_contents()
+    }
+
+    fn get_numa_node_possible_contents(&self) -> Option<String> {
+        self.0.get_numa_node_possible_contents()
+    }
+
+    fn get_numa_node_cpulist_contents(&self, node_index: u32) -> Option<String> {
+        self.0.get_numa_node_cpulist_contents(node_index)
+    }
+
+    fn get_cpu_online_contents(&self, cpu_index: u32) -> Option<String> {
+        self.0.get_cpu_online_contents(cpu_index)
+    }
+
+    fn get_proc_self_status_contents(&self) -> String {
+        self.0.get_proc_self_status_contents()
+    }
+
+    fn get_proc_self_cgroup(&self) -> Option<String> {
+        self.0.get_proc_self_cgroup()
+    }
+
+    fn get_v1_cgroup_cpu_quota(&self, cgroup_name: &str) -> Option<String> {
+        self.0.get_v1_cgroup_cpu_quota(cgroup_name)
+    }
+
+    fn get_v1_cgroup_cpu_period(&self, cgroup_name: &str) -> Option<String> {
+        self.0.get_v1_cgroup_cpu_period(cgroup_name)
+    }
+
+    fn get_v2_cgroup_cpu_quota_and_period(&self, cgroup_name: &str) -> Option<String> {
+        self.0.get_v2_cgroup_cpu_quota_and_period(cgroup_name)
+    }
+}
+
+/// Adapter: the crate-private `Bindings` trait over the harness kernel. The mask crosses the
+/// boundary as the bytes of its words in memory order, which is what the real bindings hand to
+/// the operating system (pointer + length in bytes).
+#[derive(Clone, Debug)]
+pub(crate) struct VerifBindingsAdapter(pub(crate) Arc<dyn VerifAffinityKernel>);
+
+fn words_to_bytes(words: &[c_ulong]) -> Vec<u8> {
+    words.iter().flat_map(|word| word.to_ne_bytes()).collect()
+}
+
+fn bytes_into_words(bytes: &[u8], words: &mut [c_ulong]) {
+    for (word, chunk) in words.iter_mut().zip(bytes.chunks_exact(size_of::<c_ulong>())) {
+        *word = c_ulong::from_ne_bytes(chunk.try_into().expect("chunks_exact yields whole words"));
+    }
+}
+
+impl Bindings for VerifBindingsAdapter {
+    fn sched_setaffinity_current(&self, mask: &CpuMask) -> Result<(), io::Error> {
+        let bytes = words_to_bytes(mask.verif_words());
+        assert_eq!(bytes.len(), mask.len_bytes());
+
+        self.0
+            .sched_setaffinity_current(&bytes)
+            .map_err(io::Error::from_raw_os_error)
+    }
+
+    fn sched_getaffinity_current(&self, words: NonZero<usize>) -> Result<CpuMask, io::Error> {
+        let mut mask = CpuMask::with_words(words);
+        let mut bytes = vec![0_u8; mask.len_bytes()];
+
+        self.0
+            .sched_getaffinity_current(&mut bytes)
+            .map_err(io::Error::from_raw_os_error)?;
+
+        bytes_into_words(&bytes, mask.verif_words_mut());
+
+        Ok(mask)
+    }
+
+    fn sched_getcpu(&self) -> i32 {
+        self.0.sched_getcpu()
+    }
+}
+
+/// One processor as the Linux platform enumerated it, including processors it found inactive
+/// (which the public API never shows).
+#[derive(Clone, Debug, Eq, PartialEq)]
+pub struct VerifProcessor {
+    /// Processor ID.
+    pub id: ProcessorId,
+    /// Memory region ID.
+    pub memory_region_id: MemoryRegionId,
+    /// Whether the platform considers the processor active (online).
+    pub is_active: bool,
+    /// Efficiency class.
+    pub efficiency_class: EfficiencyClass,
+}
+
+/// A Linux platform instance over a harness filesystem and a harness affinity kernel.
+///
+/// The platform lives for the rest of the process (the public types hold `&'static` references to
+/// their platform), so every instance created leaks a small allocation by design.
+#[derive(Clone, Copy, Debug)]
+pub struct VerifLinuxPlatform {
+    inner: &'static BuildTargetPlatform,
+}
+
+impl VerifLinuxPlatform {
+    /// Builds a Linux platform that reads `filesystem` and calls `kernel`. Nothing is read until
+    /// the first question is asked, exactly like the real platform singleton.
+    #[must_use]
+    pub fn new(filesystem: Arc<dyn VerifFilesystem>, kernel: Arc<dyn VerifAffinityKernel>) -> Self {
+        let platform = BuildTargetPlatform::new(
+            BindingsFacade::Verif(VerifBindingsAdapter(kernel)),
+            FilesystemFacade::Verif(VerifFilesystemAdapter(filesystem)),
+        );
+
+        Self {
+            inner: Box::leak(Box::new(platform)),
+        }
+    }
+
+    /// Builds a Linux platform that reads the real `/proc` and `/sys` but calls `kernel`.
+    #[must_use]
+    pub fn with_real_filesystem(kernel: Arc<dyn VerifAffinityKernel>) -> Self {
+        let platform = BuildTargetPlatform::new(
+            BindingsFacade::Verif(VerifBindingsAdapter(kernel)),
+            FilesystemFacade::target(),
+        );
+
+        Self {
+            inner: Box::leak(Box::new(platform)),
+        }
+    }
+
+    /// A new `SystemHardware` instance (with its own hardware ID) on top of this platform, built
+    /// the same way `SystemHardware::current()` builds the singleton.
+    #[must_use]
+    pub fn hardware(&self) -> SystemHardware {
+        SystemHardware::verif_from_platform(PlatformFacade::from(self.inner))
+    }
+
+    /// Every processor the platform enumerated, including inactive ones.
+    #[must_use]
+    pub fn processors_including_inactive(&self) -> Vec<VerifProcessor> {
+        self.inner
+            .verif_all_processors()
+            .iter()
+            .map(|p| VerifProcessor {
+                id: p.id(),
+                memory_region_id: p.memory_region_id(),
+                is_active: p.is_active,
+                efficiency_class: p.efficiency_class(),
+            })
+            .collect()
+    }
+
+    /// `Platform::max_processor_id()`.
+    #[must_use]
+    pub fn max_processor_id(&self) -> ProcessorId {
+        self.inner.max_processor_id()
+    }
+
+    /// `Platform::max_memory_region_id()`.
+    #[must_use]
+    pub fn max_memory_region_id(&self) -> MemoryRegionId {
+        self.inner.max_memory_region_id()
+    }
+
+    /// `Platform::max_processor_time()`.
+    #[must_use]
+    pub fn max_processor_time(&self) -> f64 {
+        self.inner.max_processor_time()
+    }
+
+    /// `Platform::active_processor_count()`.
+    #[must_use]
+    pub fn active_processor_count(&self) -> usize {
+        self.inner.active_processor_count()
+    }
+
+    /// `Platform::current_processor_id()`.
+    #[must_use]
+    pub fn current_processor_id(&self) -> ProcessorId {
+        self.inner.current_processor_id()
+    }
+
+    /// `Platform::current_thread_processors()`: the affinity read-back with the widening search.
+    #[must_use]
+    pub fn current_thread_processors(&self) -> Vec<ProcessorId> {
+        self.inner.current_thread_processors().into_iter().collect()
+    }
+}
+
+/// The affinity mask type of the Linux platform, for checking its laws directly.
+#[derive(Clone, Debug, Eq, PartialEq)]
+pub struct VerifCpuMask(CpuMask);
+
+impl VerifCpuMask {
+    /// `CpuMask::new()`.
+    #[must_use]
+    pub fn new() -> Self {
+        Self(CpuMask::new())
+    }
+
+    /// `CpuMask::with_words()`.
+    #[must_use]
+    pub fn with_words(words: NonZero<usize>) -> Self {
+        Self(CpuMask::with_words(words))
+    }
+
+    /// `CpuMask::default_words()`.
+    #[must_use]
+    pub fn default_words() -> usize {
+        CpuMask::default_words().get()
+    }
+
+    /// `CpuMask::insert()`.
+    pub fn insert(&mut self, processor_id: ProcessorId) {
+        self.0.insert(processor_id);
+    }
+
+    /// `CpuMask::processor_ids()`.
+    #[must_use]
+    pub fn processor_ids(&self) -> Vec<ProcessorId> {
+        self.0.processor_ids().collect()
+    }
+
+    /// Width in words.
+    #[must_use]
+    pub fn words(&self) -> usize {
+        self.0.verif_words().len()
+    }
+
+    /// `CpuMask::len_bytes()`.
+    #[must_use]
+    pub fn len_bytes(&self) -> usize {
+        self.0.len_bytes()
+    }
+
+    /// The raw words.
+    #[must_use]
+    pub fn raw_words(&self) -> Vec<u64> {
+        self.0.verif_words().iter().map(|w| u64::from(*w)).collect()
+    }
+
+    /// The bytes handed to the operating system (words in memory order).
+    #[must_use]
+    pub fn raw_bytes(&self) -> Vec<u8> {
+        words_to_bytes(self.0.verif_words())
+    }
+
+    /// A mask of `words` words filled from raw bytes, the way `sched_getaffinity` fills one.
+    #[must_use]
+    pub fn from_raw_bytes(words: NonZero<usize>, bytes: &[u8]) -> Self {
+        let mut mask = CpuMask::with_words(words);
+        bytes_into_words(bytes, mask.verif_words_mut());
+        Self(mask)
+    }
+}
+
+impl Default for VerifCpuMask {
+    fn default() -> Self {
+        Self::new()
+    }
+}
